@@ -1,0 +1,36 @@
+//! Verification hooks, only compiled with `--cfg capy_verif`.
+//!
+//! An append-only log of what the scheduling loop in `InferenceCtx::finish`
+//! observed from its `TopoSort` and what it told it.
+
+use std::cell::RefCell;
+
+#[derive(Debug, Clone, PartialEq, Eq)]
+pub enum SchedEvent {
+    /// the items `to_infer` was seeded with
+    Seed(Vec<String>),
+    /// the start of a round, with the items the `TopoSort` offered
+    Round {
+        cyclic: bool,
+        offered: Vec<String>,
+        len: usize,
+    },
+    /// the item was inferred and removed
+    Done(String),
+    /// the item was not inferred and registered these dependencies
+    Deps(String, Vec<String>),
+    /// the loop ended with `is_empty() == true`
+    End,
+}
+
+thread_local! {
+    static SCHED_LOG: RefCell<Vec<SchedEvent>> = const { RefCell::new(Vec::new()) };
+}
+
+pub(crate) fn log(ev: SchedEvent) {
+    SCHED_LOG.with(|l| l.borrow_mut().push(ev));
+}
+
+pub fn take_sched_log() -> Vec<SchedEvent> {
+    SCHED_LOG.with(|l| std::mem::take(&mut *l.borrow_mut()))
+}
